@@ -169,3 +169,43 @@ Theorem C01_scalar_expressions_bit_semantics_total :
                length w = tw (e_ty e) /\ sticky o o'.
 Proof. exact tsem_total. Qed.
 Print Assumptions C01_scalar_expressions_bit_semantics_total.
+
+(* ------------------------------------------------------------------ the precondition "the
+   bit-level semantics is defined on this input" of C01_circuit_computes_bit_semantics does not
+   depend on the input: the lowering is PARAMETRIC in its operation set (Compile/Param*.v:
+   lower_param, an abstract logical-relations theorem of which the circuit/semantics simulation
+   is one instance), and instantiated with "any two Booleans are related" it says that whether
+   TSem is defined depends on the lengths of the arguments only.  Hence ONE successful run of
+   the extracted TSem on any input of the parameters' sizes (which every check performs)
+   establishes the circuit theorem for ALL inputs of the program. *)
+From GV Require Import Compile.TSemShape.
+
+Theorem C01_bit_semantics_defined_by_shape :
+  forall fuel P args args',
+  Forall2 (fun a a' => length a = length a') args args' ->
+  forall r, tsem_program fuel P args = Ok r ->
+  exists r', tsem_program fuel P args' = Ok r' /\ length (snd r') = length (snd r).
+Proof. exact tsem_defined_shape_only. Qed.
+Print Assumptions C01_bit_semantics_defined_by_shape.
+
+Theorem C01_circuit_computes_bit_semantics_one_witness :
+  forall fuel dedup P s1 outs,
+  lower_main_with fuel dedup P = Ok (PreOk s1 outs) ->
+  counter (cb s1) + (b_shift (cb s1) - 2) <= MAX_GATES ->
+  exists fd igs bindings,
+    find_fn P (p_main P) = Some fd /\ param_wiring P (fn_params fd) = (igs, bindings) /\
+    forall args0 r0,
+      Forall2 (fun b a => length a = length (snd b)) bindings args0 ->
+      tsem_program fuel P args0 = Ok r0 ->
+      forall ins inp, load_inputs igs ins = Some inp ->
+        exists o vouts c out,
+          tsem_program fuel P (param_args bindings inp) = Ok (o, vouts) /\
+          length vouts = length (snd r0) /\
+          lower_program_with fuel dedup P = Ok (LCircuit c) /\
+          ssa_validate c = None /\ input_gates c = igs /\
+          length (output_gates c) = (161 + length vouts)%nat /\
+          ssa_eval c ins = Some out /\
+          parse_panic out = parse_spec o vouts /\
+          (o = None -> skipn 161 out = vouts).
+Proof. exact lower_program_sound_one_witness. Qed.
+Print Assumptions C01_circuit_computes_bit_semantics_one_witness.
